@@ -333,6 +333,13 @@ def main():
     plan = P.ALL[pid]
     violations = []
     proofs_ok, pinfo = audit_proofs(pid, tier)
+    # the hand-written model is an image of specific source text: fingerprint of every function the property depends on
+    import srcfp
+    try:
+        fp = srcfp.check(pid)
+    except Exception as ex:            # the fingerprint tool itself failed: the tie is not established
+        fp = {"ok": False, "error": str(ex), "changed": [], "new_items": [], "removed": [], "message": "source fingerprint failed: %s" % ex}
+    fp_ok = bool(fp.get("ok"))
     results = run_plan(plan, tier, seed, wd)
 
     if hasattr(plan, "cross_cfg"):
@@ -373,29 +380,53 @@ def main():
         elif r["cfail"]:
             corr_ok = False
 
-    need_search = (not proofs_ok) or (not corr_ok)
+    need_search = (not proofs_ok) or (not corr_ok) or (not fp_ok)
+    steer = []
     if need_search and not any(not nf for _, nf in violations):
         # the property is no longer shown to hold: search wider for a failing input
         found = None
-        if tier == "quick":
-            try:
+        try:
+            if not fp_ok:
+                # numeric literals that are new in the changed functions steer the search: the harness is
+                # rebuilt for capacities around them and the wide families run there as well
+                steer = [t for t in srcfp.thresholds(fp) if 8 < t <= (1 << 17)][:24]
+                if steer:
+                    import cases as C
+                    os.environ["VERIF_EXTRA_CAPS"] = ",".join(map(str, steer))
+                    for lst in (C.WIDE_E, C.WIDE_U8):
+                        lst.extend(x for x in steer if x not in lst)
+            if tier == "quick" or steer:
                 wide = run_plan(plan, "thorough", seed + 7919, os.path.join(wd, "wide"))
                 for r in wide:
                     if r.get("ofail"):
                         found = (r, r["ofail"][0])
                         break
-            except Exception as ex:      # the search is best effort
-                print("search failed: %s" % ex)
+                    if r.get("cfail") and not fp_ok:
+                        corr_ok = False
+                        results.append(r)
+        except Exception as ex:      # the search is best effort
+            print("search failed: %s" % ex)
+        finally:
+            os.environ.pop("VERIF_EXTRA_CAPS", None)
         if found:
             r, (c, k, why) = found
             path = write_replay(pid, "oracle", {
                 "property": pid, "cfg": r["cfg"], "kind": "property violated by the implementation (found by the widened search)",
-                "reason": why, "op_index": k, "case": c.text(r["dbg"])})
+                "reason": why, "op_index": k, "case": c.text(r["dbg"]), "extra_caps": steer,
+                "source_fingerprint_changed": fp.get("changed")})
             violations.append((path, False))
         else:
             what = {}
             if not proofs_ok:
                 what["proof"] = pinfo["problems"]
+            if not fp_ok:
+                what["source_fingerprint"] = {
+                    "meaning": "the text of these functions is no longer the text the Gallina model was written against, so the "
+                               "theorems are no longer known to be about this code; the widened differential search "
+                               "(steered to the capacities listed) found no failing input",
+                    "changed": fp.get("changed"), "new_items": fp.get("new_items"), "removed": fp.get("removed"),
+                    "new_literals": fp.get("new_literals"), "new_features": fp.get("new_features"),
+                    "steered_capacities": steer, "message": fp.get("message"), "error": fp.get("error")}
             for r in results:
                 if r.get("cfail"):
                     c, k, why = r["cfail"][0]
@@ -408,13 +439,16 @@ def main():
     ev = {
         "property_id": pid, "tier": tier, "seed": seed, "level": getattr(plan, "level", "proof"),
         "coverage": {
-            "obligations": len(pinfo["theorems"]) + len(results) + len(extras),
-            "discharged": (len(pinfo["theorems"]) if proofs_ok else 0) + sum(1 for e in extras if e[1]) +
+            "obligations": len(pinfo["theorems"]) + len(results) + len(extras) + 1,
+            "discharged": (len(pinfo["theorems"]) if proofs_ok else 0) + sum(1 for e in extras if e[1]) + (1 if fp_ok else 0) +
                           sum(1 for r in results if "build_failed" not in r and not r["ofail"] and not r["cfail"]),
             "explanation": EXPLAIN.get(pid, "machine-checked theorems about the Gallina model (coq/Properties/%s.v) plus the checked "
                                             "correspondence between the extracted model and /repo's working tree" % pid),
             "extra_obligations": [{"what": e[0], "ok": e[1]} for e in extras],
             "translated_arithmetic": getattr(plan, "arith", None), "miri": getattr(plan, "miri", None), "api_surface": getattr(plan, "api", None),
+            "source_fingerprint": {"ok": fp_ok, "functions_in_scope": fp.get("functions_in_scope"),
+                                   "functions_total": fp.get("functions_total"), "changed": fp.get("changed"),
+                                   "new_items": fp.get("new_items")},
             "checker_cmd": "make -C /verif/coq (coqc 8.16.1, full .vo build) && coqc Properties/%s.v with Print Assumptions; then ./check %s %s" % (pid, pid, tier),
             "trusted_base": ["Coq 8.16.1 kernel (no native_compute)", "extraction ExtrOcamlBasic + OCaml 4.13.1 driver",
                              "Rust harness + hooks (--cfg circular_buffer_verif)", "case generators tools/cases.py, tools/props.py",
